@@ -160,28 +160,43 @@ def replay_run(ctx, prop):
 
 # ------------------------------------------------------------------ comparing abstract values
 
-def canon(T, v):
-    """Order-insensitive normal form (sets, maps), mirrors Canon in Cql.tla; pure re-arrangement."""
+def canon(T, v, K=None):
+    """Order-insensitive normal form (sets, maps), mirrors Canon / CanonK in Cql.tla; pure re-arrangement.
+    K: the kind of the decode target the value was read from (a partial struct lists UDT fields in its own order)."""
     if not isinstance(v, dict):
         return v
+    while K is not None and K.get("g") == "ptr":
+        K = K["e"]
     k, t = v.get("k"), T.get("t")
     if k == "list":
-        es = [canon(T.get("e", {}), e) for e in v["es"]]
+        ek = K.get("e") if K and K.get("g") in ("slice", "array") else None
+        es = [canon(T.get("e", {}), e, ek) for e in v["es"]]
         if t == "set":
             es.sort(key=lambda e: json.dumps(e, sort_keys=True))
         return {"k": "list", "es": es}
     if k == "map":
-        ps = [{"key": canon(T.get("kt", {}), p["key"]), "val": canon(T.get("vt", {}), p["val"])} for p in v["ps"]]
+        kk, vk = (K.get("kk"), K.get("vk")) if K and K.get("g") == "map" else (None, None)
+        ps = [{"key": canon(T.get("kt", {}), p["key"], kk), "val": canon(T.get("vt", {}), p["val"], vk)} for p in v["ps"]]
         ps.sort(key=lambda p: json.dumps(p["key"], sort_keys=True))
         return {"k": "map", "ps": ps}
     if k == "tuple":
         ts = T.get("es", [])
-        return {"k": "tuple", "es": [canon(ts[i] if i < len(ts) else {}, e) for i, e in enumerate(v["es"])]}
+        out = []
+        for i, e in enumerate(v["es"]):
+            ti, ki = i, None
+            if K and K.get("g") == "pstruct" and i < len(K["ix"]):
+                ti, ki = K["ix"][i] - 1, K["es"][i]
+            elif K and K.get("g") in ("struct", "ifaces") and i < len(K["es"]):
+                ki = K["es"][i]
+            elif K and K.get("g") in ("slice", "array"):
+                ki = K["e"]
+            out.append(canon(ts[ti] if ti < len(ts) else {}, e, ki))
+        return {"k": "tuple", "es": out}
     return v
 
 
-def same(T, a, b):
-    return json.dumps(canon(T, a), sort_keys=True) == json.dumps(canon(T, b), sort_keys=True)
+def same(T, a, b, K=None):
+    return json.dumps(canon(T, a, K), sort_keys=True) == json.dumps(canon(T, b, K), sort_keys=True)
 
 
 # ------------------------------------------------------------------ naming the failing input class
@@ -216,6 +231,8 @@ def kshape(K):
         return "map(%s,%s)" % (kshape(K["kk"]), kshape(K["vk"]))
     if g in ("struct", "ifaces", "udtmap"):
         return "%s(%s)" % (g, ",".join(kshape(e) for e in K["es"]))
+    if g == "pstruct":
+        return "pstruct-%s(%s)" % ("byname" if K.get("byname") else "bytag", ",".join("%d:%s" % (i, kshape(e)) for i, e in zip(K["ix"], K["es"])))
     return g
 
 
@@ -228,7 +245,7 @@ def leaf_class(T, K, gv):
         return "bigint-from-bigint-minimal-length"
     if t == "duration" and g == "nint64":
         return "duration-named-int64-raw"
-    if t == "date" and g in ("time", "int64") and gv["k"] == "int" and big(gv) < 0 and big(gv) % DAY_MS != 0:
+    if t == "date" and g in ("time", "int64", "time_p9", "time_m5") and gv["k"] == "int" and big(gv) < 0 and big(gv) % DAY_MS != 0:
         return "date-pre-epoch-truncation"
     if t in FIXED and g in UNSIGNED and gv["k"] == "int" and big(gv) >= 2 ** (8 * FIXED[t] - 1):
         return "unsigned-wrap-fixed-width"
@@ -428,6 +445,16 @@ def judge_big(ctx, stats, prop):
                     big_show(b), r["total"], hexs(r["prefix"]), b["total"], hexs(b["prefix"])), dict(big=b, result=r))
             else:
                 stats["big_equal"] += 1
+                # converse direction: these bytes have the length and the beginning of the reference encoding; Unmarshal
+                # of them must give the described value back (element count; content compared by the harness)
+                rt = r["rt"]
+                if rt["st"] == "ok" and rt["count"] == b["count"] and rt["equal"]:
+                    stats["big_decoded_equal"] += 1
+                else:
+                    ctx.violation("dec-big-%s-%s" % (b["form"], "value" if rt["st"] == "ok" else rt["st"]),
+                                  "Unmarshal of the %d-byte encoding of %s gives %s" % (r["total"], big_show(b), "%d element(s), %s the input" % (
+                                      rt["count"], "equal to" if rt["equal"] else "different from") if rt["st"] == "ok" else rt["st"] + " " + str(rt.get("err"))),
+                                  dict(big=b, result=r))
         else:
             if r["st"] != "ok":
                 stats["big_refused"] += 1
@@ -486,7 +513,7 @@ def judge_decoding(ctx, cases, results, stats, which):
                     else:
                         ctx.violation(key_for(c, res, c["spec"], phase, "error" + suffix, tg["K"]), src + " fails: %s" % d.get("err"),
                                       dict(case=c, result=r, target=tg))
-                elif not same(c["T"], d["gv"], tg["exp"]):
+                elif not same(c["T"], d["gv"], tg["exp"], tg["K"]):
                     ctx.violation(key_for(c, res, c["spec"], phase, "value" + suffix, tg["K"]),
                                   src + " gives %s, expected %s" % (json.dumps(d["gv"])[:200], json.dumps(tg["exp"])[:200]),
                                   dict(case=c, result=r, target=tg))
@@ -604,7 +631,7 @@ def run(ctx):
         decodes_into_prefilled_or_reused_destination_identical_to_fresh=st["dec_same_as_fresh"],
         marshal_outputs_held_and_reread=ctx.extra["summ"].get("held", 0), outputs_changed_later=ctx.extra["summ"].get("changed_later", 0),
         statement_bind_values=st["later_statement"], concurrent_marshals=st["later_concurrent_first"],
-        size_limit_cases=st["big_cases"], size_limit_refusals_expected_and_seen=st["big_refused_ok"], size_limit_encodings_equal=st["big_equal"],
+        size_limit_cases=st["big_cases"], size_limit_refusals_expected_and_seen=st["big_refused_ok"], size_limit_encodings_equal=st["big_equal"], size_limit_decodes_equal=st["big_decoded_equal"],
         random_vectors=len(verdicts), random_vectors_claimed=st["vec_claimed"], random_vector_decodes=st["vec_decodes"],
         samples=[sample_of(c, results[c["id"]]) for c in picks[::step][:6]],
     )
